@@ -1,5 +1,6 @@
 import Mdsort.Proofs.World
 import Mdsort.Proofs.WorldStdinExample
+import Mdsort.Proofs.WorldWholeEx
 
 /-!
 # C02 - a crash at any instant never leaves a message without an intact copy
@@ -71,5 +72,58 @@ example : Proofs.StdinExample.unmatchedB
     (Proofs.World.stdinVerdict Proofs.StdinExample.env0 Proofs.StdinExample.orc0 Proofs.StdinExample.expr1
       Proofs.StdinExample.input0 Proofs.StdinExample.path0 MFlags.empty) = true :=
   Proofs.StdinExample.ex_unmatched
+/-! ## the whole run (every fault plan; definitions as in `Props/C01.lean`, "the whole run")
+
+A process killed before call k of `mainP` leaves the world after call k-1; a power failure leaves the
+durable contents.  Both are covered by a statement about the world after EVERY call. -/
+
+/-- One message: after every call of `processMessage`, under every fault plan, some entry is bound to
+a file whose content ON STABLE STORAGE is the message or its complete rewrite. -/
+theorem C02_message_power_failure (env : PEnv) (orc : EvalOracles) (expr : Expr) (md : Maildir) (name : Bytes) (st : MainSt)
+    (w : World) (plan : Plan) (d : Handle) (content : Bytes) (fid : Nat)
+    (hd : md.dirH = some d) (hp : w.dirPath d = some md.path)
+    (hwf : pathjoin PATH_MAX md.root (subdirName md.subdir) = some md.path)
+    (hfc : st.files.get md.path name = some content)
+    (hl : w.lookup md.path name = some fid) (hlt : fid < w.nextFid) (hf : w.file fid = some ⟨content, content⟩)
+    (hnd : Proofs.WholeNoDiscard env orc expr) :
+    ∀ w' ∈ (runPlan plan (processMessage env orc expr md name st) w 0 []).2.2,
+      Proofs.IntactDurable w' [content, Proofs.wholeRewrite env orc expr md.path name content] := fun w' hw' =>
+  (Proofs.whole_message_no_loss env orc expr md name st w plan hd hp hwf hfc hl hlt hf hnd w' hw').2.1
+
+/-- One maildir: after every call of `walk`, under every fault plan, every registered message has an
+entry bound to a file whose visible content AND whose content on stable storage are complete versions of it. -/
+theorem C02_walk_power_failure (env : PEnv) (orc : EvalOracles) (expr : Expr) (fuel : Nat) (md : Maildir) (st : MainSt)
+    (w : World) (plan : Plan) (hnd : Proofs.WholeNoDiscard env orc expr) (hreg : Proofs.WholeReg w st.files)
+    (hmd : Proofs.WholeMdOk w md) :
+    ∀ w' ∈ (runPlan plan (walk env orc expr fuel md st) w 0 []).2.2,
+      ∀ dir name c, st.files.get dir name = some c →
+        ∃ d n fid f, w'.lookup d n = some fid ∧ w'.file fid = some f ∧
+          Proofs.WholeVersion env orc [expr] c f.data ∧ Proofs.WholeVersion env orc [expr] c f.durable := by
+  intro w' hw' dir name c hc
+  obtain ⟨d, n, fid, f, h1, _, h3, h4, h5⟩ := Proofs.whole_walk_no_loss env orc expr fuel md st w plan hnd hreg hmd w' hw' dir name c hc
+  exact ⟨d, n, fid, f, h1, h3, h4, h5⟩
+
+/-- **A whole run** in maildir mode, any configuration without discard, any population consistent
+with the initial world: a crash (process kill or power failure) at ANY instant, under EVERY fault
+plan, leaves for every registered message an entry bound to a file whose visible content and whose
+content on stable storage are complete versions of it. -/
+theorem C02_main_power_failure (env : PEnv) (orc : EvalOracles) (confOk : Bool) (conf : List ConfBlock) (files : Files)
+    (input : Bytes) (w : World) (plan : Plan) (hm : env.stdinMode = false)
+    (hnd : ∀ b ∈ conf, Proofs.WholeNoDiscard env orc b.expr) (hreg : Proofs.WholeReg w files) :
+    ∀ w' ∈ (runPlan plan (mainP env orc confOk conf files input) w 0 []).2.2,
+      ∀ dir name c, files.get dir name = some c →
+        ∃ d n fid f, w'.lookup d n = some fid ∧ w'.file fid = some f ∧
+          Proofs.WholeVersion env orc (conf.map (·.expr)) c f.data ∧
+          Proofs.WholeVersion env orc (conf.map (·.expr)) c f.durable := by
+  intro w' hw' dir name c hc
+  obtain ⟨d, n, fid, f, h1, _, h3, h4, h5⟩ :=
+    Proofs.whole_main_no_loss env orc confOk conf files input w plan hm hnd hreg w' hw' dir name c hc
+  exact ⟨d, n, fid, f, h1, h3, h4, h5⟩
+
+/-- Non-vacuity (the two-message world of Proofs/WorldWholeEx.lean). -/
+example : Proofs.exEnv.stdinMode = false ∧
+    (∀ b ∈ Proofs.wholeExConf, Proofs.WholeNoDiscard Proofs.exEnv Proofs.wholeExOrc b.expr) ∧
+    Proofs.WholeReg Proofs.wholeExWorld Proofs.wholeExFiles :=
+  ⟨rfl, Proofs.wholeEx_nd, Proofs.wholeEx_reg⟩
 
 end Mdsort.Props
